@@ -20,6 +20,7 @@
 //!   S = ["bin", n, "PLUS", E, E] | ["not", n, E] | ["prim", n, kind, ty, idx, E]  (kind: idx|isptr|cast)
 //!     | ["call", f, [E..], n|null] | ["if", E, [S..], [S..], [[n,E,E]..]] | ["sif", E, bool, [S..]]
 //!     | ["brk", E] | ["while", [[n,E,E]..], [S..], n|null]
+//!     | ["struct", n, ty, [E..]] | ["ldecl", n] | ["lassign", n, E]   (only with job field "fragment": 2)
 //! In mode (1) a name n is the RANK of the PStr among all names of all versions of the function in the
 //! order `PStr::cmp` (the order Expression::cmp uses to sort operands); types are erased (ty = an
 //! interned number per job); f is an interned number per job.
@@ -49,6 +50,9 @@ fn op_name(op: Op) -> &'static str {
 // ------------------------------------------------------------------------------------------------
 // fragment test + name collection
 // ------------------------------------------------------------------------------------------------
+
+/// job field "fragment": 2 = StructInit / LateInit statements are part of the fragment ("struct", "ldecl", "lassign")
+static EXTENDED: std::sync::atomic::AtomicBool = std::sync::atomic::AtomicBool::new(false);
 
 fn int_operand(e: &Expression) -> bool {
   match e {
@@ -134,9 +138,29 @@ fn scan_stmt(s: &Statement, out: &mut BTreeSet<PStr>) -> Result<(), &'static str
         out.insert(c.name);
       }
     }
-    Statement::StructInit { .. } => return Err("struct-init"),
+    Statement::StructInit { struct_variable_name, type_name: _, expression_list } => {
+      if !EXTENDED.load(std::sync::atomic::Ordering::Relaxed) {
+        return Err("struct-init");
+      }
+      out.insert(*struct_variable_name);
+      for e in expression_list {
+        names_expr(e, out);
+      }
+    }
     Statement::ClosureInit { .. } => return Err("closure-init"),
-    Statement::LateInitDeclaration { .. } | Statement::LateInitAssignment { .. } => return Err("late-init"),
+    Statement::LateInitDeclaration { name, type_: _ } => {
+      if !EXTENDED.load(std::sync::atomic::Ordering::Relaxed) {
+        return Err("late-init");
+      }
+      out.insert(*name);
+    }
+    Statement::LateInitAssignment { name, assigned_expression } => {
+      if !EXTENDED.load(std::sync::atomic::Ordering::Relaxed) {
+        return Err("late-init");
+      }
+      out.insert(*name);
+      names_expr(assigned_expression, out);
+    }
   }
   Ok(())
 }
@@ -228,6 +252,15 @@ impl Enc<'_> {
         json!(["sif", self.expr(condition), invert_condition, self.stmts(statements)])
       }
       Statement::Break(e) => json!(["brk", self.expr(e)]),
+      Statement::StructInit { struct_variable_name, type_name, expression_list } => {
+        let t = self.ty(&Type::Id(*type_name));
+        let es: Vec<Value> = expression_list.iter().map(|e| self.expr(e)).collect();
+        json!(["struct", (self.name)(*struct_variable_name), t, es])
+      }
+      Statement::LateInitDeclaration { name, type_: _ } => json!(["ldecl", (self.name)(*name)]),
+      Statement::LateInitAssignment { name, assigned_expression } => {
+        json!(["lassign", (self.name)(*name), self.expr(assigned_expression)])
+      }
       Statement::While { loop_variables, statements, break_collector } => {
         let lvs: Vec<Value> = loop_variables
           .iter()
@@ -269,6 +302,9 @@ fn types_stmts(ss: &[Statement], out: &mut BTreeSet<Type>) {
       Statement::IndexedAccess { type_, .. } | Statement::Cast { type_, .. } => {
         out.insert(*type_);
       }
+      Statement::StructInit { type_name, .. } => {
+        out.insert(Type::Id(*type_name));
+      }
       Statement::IfElse { s1, s2, .. } => {
         types_stmts(s1, out);
         types_stmts(s2, out);
@@ -285,6 +321,7 @@ fn types_stmts(ss: &[Statement], out: &mut BTreeSet<Type>) {
 
 fn dump_sources(job: &Value) -> Value {
   let id = job["id"].clone();
+  EXTENDED.store(job["fragment"].as_u64() == Some(2), std::sync::atomic::Ordering::Relaxed);
   let mut heap = Heap::new();
   let texts = load_sources(&mut heap, job);
   let entry = mod_ref(&mut heap, job["entry"].as_str().unwrap_or(""));
@@ -441,12 +478,38 @@ struct Dec {
   type_of: Vec<Type>,
   fnames: HashMap<FunctionName, usize>,
   max_name: u64,
+  struct_vars: HashMap<u64, u64>,
+}
+
+fn struct_vars_of(v: &Value, out: &mut HashMap<u64, u64>) {
+  match v {
+    Value::Array(a) => {
+      if a.first().and_then(|x| x.as_str()) == Some("struct") {
+        if let (Some(n), Some(t)) = (a.get(1).and_then(|x| x.as_u64()), a.get(2).and_then(|x| x.as_u64())) {
+          out.insert(n, t);
+        }
+      }
+      for x in a {
+        struct_vars_of(x, out);
+      }
+    }
+    Value::Object(o) => {
+      for x in o.values() {
+        struct_vars_of(x, out);
+      }
+    }
+    _ => {}
+  }
 }
 
 fn max_type_number(v: &Value) -> u64 {
   match v {
     Value::Array(a) => {
-      let here = if a.first().and_then(|x| x.as_str()) == Some("prim") { a.get(3).and_then(|x| x.as_u64()).unwrap_or(0) } else { 0 };
+      let here = match a.first().and_then(|x| x.as_str()) {
+        Some("prim") => a.get(3).and_then(|x| x.as_u64()).unwrap_or(0),
+        Some("struct") => a.get(2).and_then(|x| x.as_u64()).unwrap_or(0),
+        _ => 0,
+      };
       a.iter().map(max_type_number).max().unwrap_or(0).max(here)
     }
     Value::Object(o) => o.values().map(max_type_number).max().unwrap_or(0),
@@ -479,7 +542,15 @@ impl Dec {
       "i" => Expression::Int32Literal(v[1].as_i64().unwrap_or(0) as i32),
       "j" => Expression::Int31Literal(v[1].as_i64().unwrap_or(0) as i32),
       "s" => Expression::StringName(self.name(&v[1])),
-      _ => Expression::Variable(VariableName { name: self.name(&v[1]), type_: INT_32_TYPE }),
+      _ => {
+        // a variable made by a StructInit of the function is typed with the struct type (the key of
+        // index_access_cx is hashed with the type of the pointer variable)
+        let type_ = match v[1].as_u64().and_then(|n| self.struct_vars.get(&n).copied()) {
+          Some(tn) => self.ty(&json!(tn)),
+          None => INT_32_TYPE,
+        };
+        Expression::Variable(VariableName { name: self.name(&v[1]), type_ })
+      }
     }
   }
 
@@ -545,6 +616,16 @@ impl Dec {
         statements: self.stmts(&v[3]),
       },
       "brk" => Statement::Break(self.expr(&v[1])),
+      "struct" => Statement::StructInit {
+        struct_variable_name: self.name(&v[1]),
+        type_name: match self.ty(&v[2]) {
+          Type::Id(id) => id,
+          _ => unreachable!(),
+        },
+        expression_list: v[3].as_array().map(|a| a.iter().map(|e| self.expr(e)).collect()).unwrap_or_default(),
+      },
+      "ldecl" => Statement::LateInitDeclaration { name: self.name(&v[1]), type_: INT_32_TYPE },
+      "lassign" => Statement::LateInitAssignment { name: self.name(&v[1]), assigned_expression: self.expr(&v[2]) },
       _ => Statement::While {
         loop_variables: v[1]
           .as_array()
@@ -568,8 +649,10 @@ impl Dec {
 
 fn replay(job: &Value) -> Value {
   let id = job["id"].clone();
-  let mut d = Dec { heap: Heap::new(), table: SymbolTable::new(), types: HashMap::new(), type_of: Vec::new(), fnames: HashMap::new(), max_name: 0 };
+  EXTENDED.store(true, std::sync::atomic::Ordering::Relaxed);
+  let mut d = Dec { heap: Heap::new(), table: SymbolTable::new(), types: HashMap::new(), type_of: Vec::new(), fnames: HashMap::new(), max_name: 0, struct_vars: HashMap::new() };
   let m = &job["mir"];
+  struct_vars_of(m, &mut d.struct_vars);
   let _ = d.ty(&json!(max_type_number(m)));
   let parameters: Vec<PStr> = m["params"].as_array().map(|a| a.iter().map(|p| d.name(p)).collect()).unwrap_or_default();
   let body = d.stmts(&m["body"]);
